@@ -63,7 +63,7 @@ PROPS["C11"] = {
 PROPS["C14"] = {
     "level": "proof",
     "verus": {"propset": ["CodePage::from_id", "CodePage::id", "lemma_cp_roundtrip", "lemma_cp_of_id", "ascii_encode"],
-              "codepage": ["CodePage::encode", "ascii_decode", "lemma_ascii_pair", "lemma_enc_concat", "lemma_enc_split", "lemma_blen_split", "lemma_advance", "lemma_unmappable_last", "lemma_blen_nonneg"]},
+              "codepage": ["CodePage::encode", "CodePage::decode", "ascii_decode", "lemma_ascii_pair", "lemma_enc_concat", "lemma_enc_split", "lemma_blen_split", "lemma_advance", "lemma_unmappable_last", "lemma_blen_nonneg"]},
     "assumptions": [
         "the encoding_rs tables ARE the Windows code pages their names designate and are self-inverse on representable characters (dependency data; the per-character law over 1,112,064 x 26 is NOT claimed)",
         "CodePage::encode (group codepage): the real refill loop is proved to produce enc_q(page, string) -- every character's encoding, or '?' for a character without one, concatenated, for strings of ANY length -- against an ASSUMED contract of one encoding_rs encoder step (prelude/encoder.rs: whole characters consumed, mappable ones written, stops with InputEmpty / OutputFull (>= 1 character consumed with a 1024-byte buffer) / Unmappable(c) with c consumed; read = UTF-8 bytes consumed; no encoder state between calls for the encodings used). `&string[total_read..]` carries its real precondition (a character boundary). CodePage::decode is NOT covered",
@@ -212,7 +212,7 @@ PROPS["C11"]["verus"]["pkgstreams"] = ["Package::has_stream", "Package::read_str
 FAULT_PROBES = {fn: ["faults"] for fn in ["Table::write_rows", "StringPool::write_pool", "StringPool::write_data", "PropertySet::write",
                                             "SummaryInfo::write", "FinishImpl::finish", "Package::flush"]}
 PROPS["C15"]["probes"] = FAULT_PROBES
-PROPS["C14"]["probes"] = {"CodePage::encode": ["encode"]}
+PROPS["C14"]["probes"] = {"CodePage::encode": ["encode"], "CodePage::decode": ["bom"]}
 PROPS["C18"]["probes"] = {"timestamp_from_system_time": ["time"], "system_time_from_timestamp": ["time"],
                           "duration_to_timestamp_delta": ["time"], "timestamp_delta_to_duration": ["time"]}
 ROWS_FNS = ["Table::read_rows", "Column::coltype", "lemma_row_width_bounds", "lemma_row_width_mono", "lemma_mul_step", "lemma_mul_dist", "lemma_mul_mono", "lemma_div_mul"]
